@@ -142,8 +142,65 @@ def run_real(ops):
         shutil.rmtree(root, ignore_errors=True)
 
 
+def _table_modules():
+    """modules of the package that load a geometry table file: {module path -> table file name}"""
+    out = {}
+    for py in sorted(core.SRC.rglob("*.py")):
+        try:
+            t = ast.parse(py.read_text())
+        except SyntaxError:
+            continue
+        loads = [n for n in ast.walk(t) if isinstance(n, ast.Call) and ast.unparse(n.func).endswith("np.load")]
+        table = [a for n in loads for a in ast.walk(n) if isinstance(a, ast.Constant) and isinstance(a.value, str) and a.value.endswith(".npz")]
+        if table:
+            out[py] = table[0].value
+    return out
+
+
+def cached_kernels_embedding_tables():
+    """every numba kernel compiled with cache=True, anywhere in the package, whose body reads module state that comes from a geometry table:
+    a non-constant global of a table-loading module, either its own module's or reached through an imported module alias.
+    Returns [(module path, function name, table file name)]."""
+    tmods = _table_modules()
+    found = []
+    for py in sorted(core.SRC.rglob("*.py")):
+        try:
+            t = ast.parse(py.read_text())
+        except SyntaxError:
+            continue
+        # names bound at module level: functions/classes, literal constants, imported modules (alias -> module file if it is a table module)
+        funcs = {n.name for n in t.body if isinstance(n, (ast.FunctionDef, ast.ClassDef))}
+        alias_to_tmod = {}
+        imported = set()
+        for n in t.body:
+            if isinstance(n, (ast.Import, ast.ImportFrom)):
+                for a in n.names:
+                    nm = a.asname or a.name.split(".")[0]
+                    imported.add(nm)
+                    for tm in tmods:
+                        if tm.stem == a.name.split(".")[-1] and isinstance(n, ast.ImportFrom):
+                            alias_to_tmod[nm] = tm
+        own_table = tmods.get(py)
+        for f in t.body:
+            if not (isinstance(f, ast.FunctionDef) and any(("vectorize" in ast.unparse(d) or "jit" in ast.unparse(d)) and "cache=True" in ast.unparse(d) for d in f.decorator_list)):
+                continue
+            params = {a.arg for a in f.args.args}
+            local = {x.id for n in ast.walk(f) for x in ast.walk(n) if isinstance(n, (ast.Assign, ast.AugAssign, ast.AnnAssign)) and isinstance(x, ast.Name) and isinstance(x.ctx, ast.Store)}
+            table = None
+            for n in ast.walk(f):
+                if isinstance(n, ast.Attribute) and isinstance(n.value, ast.Name) and n.value.id in alias_to_tmod and not isinstance(getattr(n, "ctx", None), ast.Store):
+                    table = tmods[alias_to_tmod[n.value.id]]
+                elif isinstance(n, ast.Name) and isinstance(n.ctx, ast.Load) and own_table and n.id not in params | local | funcs | imported and n.id not in dir(__builtins__) \
+                        and any(isinstance(g, ast.Global) and n.id in g.names for g in ast.walk(t)):
+                    table = own_table
+            if table:
+                found.append((py, f.name, table))
+    return found
+
+
 def wiring(chk: core.Check):
-    """every module that freezes a loader-assigned table into a cached kernel is covered by a glob of src_cache_list"""
+    """every cached kernel of the package that freezes data of a geometry table into its compiled code lives in a module whose cache files
+    are matched by a glob of src_cache_list paired with that table"""
     src = (core.SRC / "_cache_numba.py").read_text()
     tree = ast.parse(src)
     pairs = []
@@ -151,19 +208,21 @@ def wiring(chk: core.Check):
         if isinstance(st, ast.Assign) and getattr(st.targets[0], "id", None) == "src_cache_list":
             for el in st.value.elts:
                 pairs.append((ast.unparse(el.elts[0]), ast.unparse(el.elts[1])))
+    kernels = cached_kernels_embedding_tables()
+    chk.coverage["cached_kernels_embedding_table_data"] = len(kernels)
+    by_mod = {}
+    for py, fn, table in kernels:
+        by_mod.setdefault((py, table), []).append(fn)
     geo = core.SRC / "detectors" / "geometry"
-    for py in sorted(geo.glob("*.py")):
-        t = ast.parse(py.read_text())
-        cached = [f for f in t.body if isinstance(f, ast.FunctionDef) and any("vectorize" in ast.unparse(d) and "cache=True" in ast.unparse(d) for d in f.decorator_list)]
-        loads = [n for n in ast.walk(t) if isinstance(n, ast.Call) and ast.unparse(n.func).endswith("np.load")]
-        if cached and loads:
-            table = [a for n in loads for a in ast.walk(n) if isinstance(a, ast.Constant) and isinstance(a.value, str) and a.value.endswith(".npz")]
-            tname = table[0].value if table else "?"
-            ok = any(tname in s and f"__pycache__/{py.stem}.*.nb[ci]" in c for s, c in pairs)
-            chk.count(1, key=f"wiring-{py.stem}")
-            if not ok:
-                chk.failing_input("src_cache_list coverage", {"module": py.name, "table": tname, "src_cache_list": pairs},
-                                  "not covered", f"a pair ({tname}, __pycache__/{py.stem}.*.nb[ci])", "every module freezing a table into cached kernels must be listed")
+    for (py, table), fns in sorted(by_mod.items()):
+        chk.count(1, key=f"wiring-{py.stem}-{table}")
+        in_geo = py.parent == geo
+        ok = in_geo and any(table in s_ and f"__pycache__/{py.stem}.*.nb[ci]" in c and "geom_dir" in c for s_, c in pairs)
+        if not ok:
+            chk.obligation_broken("correspondence", "wiring: cached kernels that embed geometry-table data vs src_cache_list",
+                                  f"{py.relative_to(core.SRC)}: kernels {fns[:4]} read data of {table}, but no pair ({table}, {py.parent.relative_to(core.SRC)}/__pycache__/{py.stem}.*.nb[ci]) is in src_cache_list {pairs}")
+    if not any(py.parent == geo and py.stem == "mdc" for py, _ in by_mod) or not any(py.parent == geo and py.stem == "emc" for py, _ in by_mod):
+        chk.obligation_broken("correspondence", "wiring scan", f"the scan no longer recognises the cached kernels of geometry/mdc.py / emc.py: {[(str(p.name), t) for p, t in by_mod]}")
     init = (core.SRC / "__init__.py").read_text()
     body = [s for s in ast.parse(init).body if not isinstance(s, ast.Expr)]
     first_imports = [ast.unparse(s) for s in body[:3]]
@@ -365,6 +424,91 @@ def e2e_wholesale(chk: core.Check):
         shutil.rmtree(root, ignore_errors=True)
 
 
+E2E_ALL = r'''
+import sys, json, numpy as np
+sys.path.insert(0, sys.argv[1])
+import pybes3
+import pybes3.detectors as det
+out = {}
+gids_m = np.array([0, 39, 40, 45, 100, 500, 3000, 6000], dtype=np.int64)
+gids_e = np.array([0, 100, 479, 480, 3000, 6000], dtype=np.int64)
+for name in sorted(dir(pybes3)):
+    f = getattr(pybes3, name)
+    try:
+        if name.startswith("mdc_gid_to_"):
+            out[name] = np.asarray(f(gids_m)).astype(float).tolist()
+        elif name.startswith("emc_gid_to_point_"):
+            out[name] = np.asarray(f(gids_e, np.full(len(gids_e), 3))).astype(float).tolist()
+        elif name.startswith("emc_gid_to_"):
+            out[name] = np.asarray(f(gids_e)).astype(float).tolist()
+        elif name in ("mdc_gid_z_to_x", "mdc_gid_z_to_y"):
+            out[name] = np.asarray(f(gids_m, np.full(len(gids_m), 7.5))).astype(float).tolist()
+    except Exception as ex:
+        out[name] = f"{type(ex).__name__}: {ex}"
+layers = np.array([0, 1, 1, 10, 42], dtype=np.uint8); wires = np.array([3, 5, 0, 7, 2], dtype=np.uint16)
+out["get_mdc_gid"] = np.asarray(pybes3.get_mdc_gid(layers, wires)).astype(float).tolist()
+out["get_emc_gid"] = np.asarray(pybes3.get_emc_gid(np.array([0, 1, 1, 2]), np.array([1, 0, 20, 3]), np.array([5, 0, 100, 7]))).astype(float).tolist()
+ids = det.get_mdc_digi_id(wires, layers, np.zeros(5, dtype=np.uint8))
+for lib in ("np",):
+    r = pybes3.parse_mdc_digi_id(np.asarray(ids, dtype=np.uint32), with_pos=True, library=lib) if "library" in pybes3.parse_mdc_digi_id.__code__.co_varnames else pybes3.parse_mdc_digi_id(np.asarray(ids, dtype=np.uint32), with_pos=True)
+    for k in (r.fields if hasattr(r, "fields") else r.keys()):
+        out["parse_mdc_digi_id." + k] = np.asarray(r[k]).astype(float).tolist()
+eids = det.get_emc_digi_id(np.array([1, 1, 0]), np.array([3, 20, 2]), np.array([7, 100, 9]))
+r = pybes3.parse_emc_digi_id(np.asarray(eids, dtype=np.uint32), with_pos=True)
+for k in (r.fields if hasattr(r, "fields") else r.keys()):
+    out["parse_emc_digi_id." + k] = np.asarray(r[k]).astype(float).tolist()
+for nm, g in (("parse_mdc_gid", gids_m), ("parse_emc_gid", gids_e)):
+    r = getattr(pybes3, nm)(g, with_pos=True)
+    for k in (r.fields if hasattr(r, "fields") else r.keys()):
+        out[nm + "." + k] = np.asarray(r[k]).astype(float).tolist()
+print("RESULT " + json.dumps(out))
+'''
+
+
+def e2e_everything(chk: core.Check):
+    """every public geometry / parsing function, both tables replaced (positions shifted, one MDC wire dropped so that the derived
+    numbering changes): what a fresh interpreter returns after the update must equal what it returns with every cache file wiped"""
+    import time
+    root = scratch_package()
+    (root / "e2e_all.py").write_text(E2E_ALL)
+
+    def run():
+        p = subprocess.run([core.PY, str(root / "e2e_all.py"), str(root)], capture_output=True, text=True, env=e2e_env(), timeout=1500)
+        lines = [l for l in p.stdout.splitlines() if l.startswith("RESULT ")]
+        if p.returncode != 0 or not lines:
+            raise core.Infra("e2e_all process failed: " + p.stderr[-1200:])
+        return json.loads(lines[-1][7:])
+    try:
+        run()                                                    # P1: warms every cache from the old tables
+        time.sleep(1.1)
+        g = root / "pybes3" / "detectors" / "geometry"
+        d = dict(np.load(g / "mdc_geom.npz"))
+        drop = int(np.flatnonzero(d["layer"] == 0)[-1])
+        d = {k: np.delete(v, drop, axis=0) for k, v in d.items()}
+        d["gid"] = np.arange(len(d["layer"]), dtype=d["gid"].dtype)
+        d["west_x"] = d["west_x"] + 3.0
+        np.savez(g / "mdc_geom.npz", **d)
+        e = dict(np.load(g / "emc_geom.npz"))
+        e["center_x"] = e["center_x"] + 2.0
+        e["points_y"] = e["points_y"] - 1.5
+        np.savez(g / "emc_geom.npz", **e)
+        after = run()                                            # P2: next import after the update
+        survivors = sorted(str(f.relative_to(root / "pybes3")) for f in (root / "pybes3").rglob("*.nb[ci]") if f.stat().st_mtime < (g / "mdc_geom.npz").stat().st_mtime)
+        for f in list((root / "pybes3").rglob("*.nb[ci]")):
+            f.unlink()
+        ref = run()                                              # P3: nothing cached - values of the current tables
+        chk.count(len(ref), key="e2e-everything")
+        bad = [k for k in ref if after.get(k) != ref[k]]
+        chk.coverage["e2e_everything"] = {"functions_compared": len(ref), "caches_older_than_the_tables_surviving": survivors[:6]}
+        if bad:
+            k = bad[0]
+            chk.failing_input("public lookups in a fresh interpreter after both geometry tables were replaced", {"history": ["P1: import, call every public geometry / parsing function (caches written)", "mdc_geom.npz: last wire of layer 0 dropped, west_x += 3; emc_geom.npz: center_x += 2, points_y -= 1.5", "P2: import (import-time check), same calls"],
+                                                                                                                 "function": k, "differing_functions": bad[:8], "cache_files_older_than_the_tables_left_on_disk": survivors[:8]},
+                              after.get(k), ref[k], "after the geometry table files change, the next import discards every cache produced from older tables, so that lookups return values of the current tables")
+    finally:
+        shutil.rmtree(root, ignore_errors=True)
+
+
 def correspond(chk: core.Check, n_hist: int):
     rng = np.random.default_rng(chk.seed + 17)
     hists = [gen_history(rng, int(rng.integers(3, 13))) for _ in range(n_hist)]
@@ -437,6 +581,7 @@ def main(chk: core.Check) -> int:
         chk.obligation_broken("correspondence", "cache driver", str(ex))
     wiring(chk)
     e2e_known_finding(chk)
+    e2e_everything(chk)
     if thorough:
         e2e_normal(chk)
         e2e_wholesale(chk)
@@ -448,4 +593,5 @@ def main(chk: core.Check) -> int:
         e2e_wholesale(chk)
         e2e_index_rewrite(chk)
         e2e_same_second(chk)
+        pass
     return chk.finish(search if not thorough else None)
